@@ -802,6 +802,14 @@ func (ctx Ctx) callExpr(s *ast.CallExpr) coq.Expr {
 		id, ok := s.Fun.(*ast.Ident)
 		return ok && id.Name == name && ctx.goBuiltin(id)
 	}
+	// f(g()) with g returning several values passes each of them as an
+	// argument; translating g() as the single argument would apply f to a
+	// tuple
+	if len(s.Args) == 1 {
+		if tuple, ok := ctx.typeOf(s.Args[0]).(*types.Tuple); ok && tuple.Len() > 1 {
+			ctx.unsupported(s, "call whose arguments are the results of a multi-valued call")
+		}
+	}
 	if isBuiltin("make") {
 		return ctx.makeExpr(s.Args)
 	}
